@@ -24,6 +24,7 @@ type MainTape struct {
 
 var mainSim *Sim
 
+//go:norace
 func writeMainOut(outcome string, res *Result) {
 	path := os.Getenv("VERIF_SIM_OUT")
 	if path == "" || mainSim == nil {
